@@ -51,6 +51,16 @@ impl Value {
         }
     }
 
+    /// Returns the value as it can be stored in a database table: the MSI
+    /// file format has a single representation for null and for the empty
+    /// string, so an empty string is stored (and read back) as null.
+    pub(crate) fn into_storable(self) -> Value {
+        match self {
+            Value::Str(ref string) if string.is_empty() => Value::Null,
+            value => value,
+        }
+    }
+
     /// Creates a boolean value.
     pub(crate) fn from_bool(boolean: bool) -> Value {
         if boolean {
